@@ -49,7 +49,8 @@ PROBES = ["unset_below_non_default_ancestor", "set_on_sibling", "invalid_value_r
           "render_reveals_lines", "render_reveals_whole", "render_reveals_jpeg",
           "render_reveals_png", "animated_draw_reveals_method", "setting_on_abstract_ancestor",
           "iterator_rerender_reveals_method", "file_backed_iterm2_render",
-          "style_subclass_with_mixin", "animated_iterm2_direct_render"]
+          "style_subclass_with_mixin", "animated_iterm2_direct_render",
+          "subclass_redeclares_render_methods"]
 COMPONENTS = {
     "real": ["BaseImage.set_render_method (class and instance forms)", "ImageMeta.forced_support",
              "ITerm2ImageMeta + ClassInstanceProperty / ClassProperty descriptors",
@@ -71,6 +72,15 @@ class Node:
         self.name = name
         self.own = {}
         self.instances = []      # [(obj, own dict)]
+        self.methods = None      # render methods the class accepts (None: inherited)
+
+    def accepted_methods(self):
+        n = self
+        while n is not None:
+            if n.methods is not None:
+                return n.methods
+            n = n.parent
+        return set()
 
     def effective(self, setting):
         n = self
@@ -116,6 +126,8 @@ def run(ch, ctx, fault=None):
                               ("iterm2", ti_image.ITerm2Image, n_graphics),
                               ("block", ti_image.BlockImage, n_text)):
             roots.append(Node(cls, par, fam, cls.__name__))
+            roots[-1].methods = {"kitty": {"lines", "whole"}, "iterm2": {"lines", "whole", "anim"},
+                                 "block": set()}[fam]
         nodes = list(roots)
         # seeded subclass tree
         for _ in range(ch.int("n_sub", 1, 8)):
@@ -134,8 +146,17 @@ def run(ch, ctx, fault=None):
                 mixin = type("Tagged%d" % len(nodes), (), {"tag": "x"})
                 bases = (mixin, parent.cls) if ch.bool("mixin_first", 0.6) else (parent.cls, mixin)
                 ctx.probe("style_subclass_with_mixin")
-            sub = type(parent.cls)(name, bases, {})
+            body = {}
+            redeclared = None
+            if parent.family != "block" and ch.bool("redeclares_methods", 0.15):
+                # a style subclass that narrows (or just re-states) the render methods it
+                # accepts is still a subclass as far as inheritance of settings goes
+                redeclared = {"lines", "whole"}
+                body["_render_methods"] = set(redeclared)
+                ctx.probe("subclass_redeclares_render_methods")
+            sub = type(parent.cls)(name, bases, body)
             nodes.append(Node(sub, parent, parent.family, name))
+            nodes[-1].methods = redeclared
         for n in nodes:
             for j in range(ch.int("n_inst", 0, 2)):
                 anim = ch.bool("anim_src", 0.3)
@@ -324,8 +345,7 @@ def run(ch, ctx, fault=None):
             if op == "cls_method":
                 val = ch.pick("mval", ("lines", "whole", None, None, "WHOLE", "anim", "bogus", 7))
                 desc = "%s.set_render_method(%r)" % (n.name, val)
-                valid_set = {"kitty": {"lines", "whole"}, "iterm2": {"lines", "whole", "anim"},
-                             "block": set()}[n.family]
+                valid_set = n.accepted_methods()
                 ok = expect(lambda: n.cls.set_render_method(val), ("ValueError", "TypeError"), desc)
                 should = val is None or (isinstance(val, str) and val.lower() in valid_set)
                 check(ok == should, "set_render_method_acceptance", {"op": desc, "accepted": ok},
@@ -353,8 +373,7 @@ def run(ch, ctx, fault=None):
                 val = ch.pick("mval", ("lines", "whole", None, "anim", "bogus", "LINES", "Whole",
                                        "ANIM", "Lines"))
                 desc = "%s#%d.set_render_method(%r)" % (n.name, idx, val)
-                valid_set = {"kitty": {"lines", "whole"}, "iterm2": {"lines", "whole", "anim"},
-                             "block": set()}[n.family]
+                valid_set = n.accepted_methods()
                 ok = expect(lambda: obj.set_render_method(val), ("ValueError", "TypeError"), desc)
                 should = val is None or val.lower() in valid_set
                 check(ok == should, "set_render_method_acceptance", {"op": desc, "accepted": ok},
